@@ -302,12 +302,12 @@ func threadBucket(t int) string {
 func runC33(c *mon.Ctx) {
 	c.Rule("each case = one download of a simulated file (bytes are a function of seed and offset) through the public Builder API against a harness master DC; " +
 		"part size from {4K..1M incl. 12K,20K,100K}, threads 1..8, Stream or Parallel, arms default / WithAllowCDN(false) / AllowCDN without provider / AllowCDN with provider but no redirect; " +
-		"file size classes 0,1,P-1,P,P+1,kP,kP±1,threads*P,random; scripted retryable faults per request offset (rpc Timeout, context.DeadlineExceeded, net timeout, bursts of up to 7, " +
+		"file size classes 0,1,P-1,P,P+1,kP,kP±1,threads*P,random (quick: up to 1 MiB resp. 3 parts for parts >= 256K; thorough: a quarter up to 8 MiB); scripted retryable faults per request offset (rpc Timeout, context.DeadlineExceeded, net timeout, bursts of up to 7, " +
 		"FLOOD_WAIT_0 / FLOOD_PREMIUM_WAIT_0 in ~12% of cases) incl. on the requests at/after EOF; random per-request delays only shuffle thread completion order. " +
 		"Oracle: download returns nil; WriterAt writes tile [0,size) exactly (no gap, no duplicate, nothing past EOF) with the file's bytes / Writer stream equals the file; returned type equals the served type; no write after return. " +
 		"distinct non-trivial = (mode, arm, size class, thread bucket, fault class) of a completed download")
 	c.Assume("the harness master DC honours offset/limit exactly and returns short/empty data at EOF (upload.getFile with precise flag); flood waits use the real clock (downloader gives tgerr.FloodWait no clock), so only FLOOD_WAIT_0 is injected")
-	n := devN(c.N(600, 30000))
+	n := devN(c.N(600, 40000))
 	workers := 12
 	cases := make(chan int)
 	var wg sync.WaitGroup
